@@ -98,6 +98,11 @@ extern "C" void h_break(void) {
   verif_assert(opp2[c] == opp[c] || opp2[c] == INV, "phase 2 only removes links");
   verif_assert(opposite_ok_at(c2v, opp2, c), "opposite stays a symmetric pairing across a shared, oppositely oriented edge");
   t.release();
+#ifdef BREAK_HITS
+  // reachability twin: the vacuity witness of this variant is reachable only if some link was removed, i.e. only
+  // through the edge-breaking branch
+  { int removed = 0; for (int k = 0; k < NC; ++k) if (opp2[k] != opp[k]) removed = 1; verif_assume(removed); }
+#endif
   verif_reach();
 }
 
